@@ -58,7 +58,7 @@ def inputs_unchanged(res):
             if wall != wall_before:
                 changed.append("wall")
             if changed:
-                res.violation("inputs-modified:" + "+".join(sorted(set(o) & {"reverse_current", "psi_divide_twopi", "reverse_Bt"})) or "default",
+                res.violation("inputs-modified:" + ("+".join(sorted(set(o) & {"reverse_current", "psi_divide_twopi", "reverse_Bt"})) or "default"),
                               "building an equilibrium with options %s modifies the caller's input arrays %s in place" % (name, changed),
                               {"geometry": geo, "options": o})
             else:
